@@ -1025,3 +1025,39 @@ func GenTwoJoins(t *rapid.T, cfg GenCfg) *Spec {
 	}
 	return sp
 }
+
+// GenStateFan: 2-5 producers of one step that all work on the graph's state (ProcessState, pre- and post-handlers);
+// one of them may fail inside its ProcessState handler (or, with preH, in its state pre-handler) - the others
+// still get at the state, in whatever order they finish.
+func GenStateFan(t *rapid.T, preH bool) *Spec {
+	k := rapid.IntRange(2, 5).Draw(t, "stateFan")
+	sp := &Spec{Mode: []string{"dag", "pregel", "workflow"}[rapid.IntRange(0, 2).Draw(t, "stateFanMode")], In: "S", Out: "M", State: true}
+	for i := 0; i < k; i++ {
+		n := NodeSpec{Key: fmt.Sprintf("s%d", i), Kind: "lambda", In: "S"}
+		n.OutputKey = n.Key
+		n.PS = rapid.IntRange(0, 3).Draw(t, "ps") > 0
+		n.PostH = []string{"", "v", "s"}[rapid.IntRange(0, 2).Draw(t, "postH")]
+		n.PreH = []string{"", "", "v", "s"}[rapid.IntRange(0, 3).Draw(t, "preH")]
+		sp.Nodes = append(sp.Nodes, n)
+		e := Edge{From: n.Key, To: End}
+		if sp.Mode == "workflow" {
+			e.ToKey = n.Key
+			sp.Nodes[i].OutputKey = ""
+		}
+		sp.Edges = append(sp.Edges, Edge{From: Start, To: n.Key}, e)
+	}
+	if rapid.Bool().Draw(t, "stateFanFault") {
+		fi := rapid.IntRange(0, k-1).Draw(t, "stateFanFaultNode")
+		if preH && rapid.Bool().Draw(t, "stateFanPreH") {
+			// the node's state pre-handler fails: the step's other nodes are either not started or waited for
+			if sp.Nodes[fi].PreH == "" {
+				sp.Nodes[fi].PreH = "v"
+			}
+			sp.Nodes[fi].Fault = "preherr"
+		} else {
+			sp.Nodes[fi].PS = true
+			sp.Nodes[fi].Fault = "pspanic"
+		}
+	}
+	return sp
+}
